@@ -49,9 +49,12 @@ class QuadratureRule:
 
         Note:
             This identifier is used to provide unique names to tables and symbols
-            in generated code.
+            in generated code. It is computed from both the points and the
+            weights, as rules that differ in either get separate tables.
         """
-        return self.hash_obj.hexdigest()[-3:]
+        digest = hashlib.sha1(self.points)
+        digest.update(np.ascontiguousarray(self.weights))
+        return digest.hexdigest()[:12]
 
 
 def create_quadrature_points_and_weights(
